@@ -8,8 +8,14 @@
        give the same blocks (so "the reference's output" is well defined).
      - its forkless cause is FcSpec.fc_spec (composes with C05), its decisions are exactly the rule-level
        statement (C10_decide_iff).
-   NOT proved: C10_full (model of the implementation = reference), i.e. [impl_refines_spec] for
-   model/AbftRun.v; it is tested on every generated scenario (implementation-level claim: test only). *)
+   The statement for the model of the implementation (model/Abft.v + model/AbftRun.v = reference) is PROVED
+   further down in this file by worker link (proofs/Link*.v): C10_model_refines_reference(_any_order) for
+   valid single-epoch runs, C10_model_rejects_what_the_reference_rejects for streams with rejected / not
+   offered events, C10_model_refines_reference_epochs (uniform sealing policy) and
+   C10_model_refines_reference_extended (several epochs, arbitrary policy, noise, optional Builds, more
+   observations).  [C10_full] as stated in BftProps (for ALL validator lists) is false for the model
+   (zero-weight / duplicate validators): the proved form is C10_full_for_the_model (side conditions
+   link_side).  The step from the model to the Go code is the hand port + differential testing. *)
 From Coq Require Import NArith List.
 From LV Require Import model.VecIndex lib.WSumBft spec.ElectionSpec proofs.BftCore proofs.BftElection
   proofs.BftMono proofs.BftGraph proofs.BftMain proofs.BftRun proofs.BftFcSpec proofs.BftAccept proofs.BftProps.
@@ -98,9 +104,9 @@ Theorem C10_fc_is_graph_fc :
     fc_spec (map snd vals) (quorum_of (map snd vals)) (length vals) (E_of Dr) (nd_id a) (nd_id b).
 Proof. exact fcn_is_fc_spec. Qed.
 
-(* ---- full statement for a model `run` of the implementation: NOT proved (it is the refinement
-        obligation impl_refines_spec for model/AbftRun.v, the L1 invariant of DESIGN 5 C10); it is what the
-        correspondence tests on every generated scenario ---- *)
+(* ---- full statement for a model `run` of the implementation, without side conditions: as stated it is FALSE
+        for model/AbftRun.v (validator lists with zero weights or duplicate ids); the proved form with the
+        side conditions link_side is C10_full_for_the_model below (worker link), its extensions follow it ---- *)
 Definition C10_full : impl_model -> Prop := BftProps.C10_full.
 
 (* non-vacuity: a generated DAG (4 validators, 48 events, one forking validator) is a valid run,
@@ -197,3 +203,82 @@ Example C10_model_epochs_example :
   model_epochs 200 (fun _ => 0) (mk_policy 1 0 ex_vals 1 2) 0 (start 1 ex_vals) ex_vals 1 me_Ds = reference_epochs 1 0 ex_vals 1 me_Ds.
 Proof. exact (conj me_ok (conj me_fresh (conj me_reference me_refines_by_evaluation))). Qed.
 Print Assumptions C10_model_refines_reference_epochs.
+
+(* ================= Round 3 (worker link): the REJECTION direction, and the extended statement =================
+   (1) C10_model_rejects_what_the_reference_rejects (proofs/LinkReject.v, LinkCodes.v): abft_run = reference
+       also on event streams that are NOT valid runs: an event whose claimed frame the reference does not allow
+       (code 1) is rejected by the model with ErrWrongFrame (LinkReject.reject_step, from abft's
+       frame_check_iff_allowed), its Build still returns frame_high; an event with a known id or an unknown
+       parent (code 2) is stopped by the application's guard.  link_side_codes: validators without duplicate
+       ids / zero weights, total < 2^31; every creator is a position of the validator list; every code is 0, 1
+       or 2; forkers < 1/3; an event that reaches the frame check has an id that is not a temporary Build id
+       and is not the id of an event rejected EARLIER in the run (ids are hashes: the forkless-cause cache is
+       keyed by id, a rejected event leaves its entries behind -- confirmed defect C07 -- so a different event
+       under a spent id is outside the statement; LinkX.ids_ok).
+   (2) C10_model_refines_reference_extended (proofs/LinkX.v, LinkEpochX.v, LinkEpochsX.v): several epochs under
+       an ARBITRARY policy (list of (epoch, frame) -> next validators), schedules with optional Builds, events
+       of code 0 / 1 / 2, noise judged by the input alone (LinkReject.noise_in: any Build, a Process that the
+       guard stops, restarts, probes), and more observations: per event the code, the Build frame, the decided
+       frame and epoch reported by Process; per restart the decided frame and epoch it reports; per block the
+       frame, Atropos, cheaters and the validators it seals to; per epoch the validators of the sealed
+       instance.  The reference side (LinkX.ref_x) is ElectionSpec's add_event / r_blocks / cheaters_of walked
+       event by event; without a policy its projection is ElectionSpec.reference
+       (C10_extended_reference_is_the_reference).  render_x reports unexpected observation shapes with the
+       codes 97 / 98 / 99 instead of truncating.
+       epochs_ok_x is a property of the input; LinkXCheck.epochs_ok_xb decides it. *)
+From LV Require Import proofs.LinkReject proofs.LinkX proofs.LinkEpochX proofs.LinkEpochsX proofs.LinkXCheck proofs.LinkCodes
+  proofs.LinkCodesExample proofs.LinkXExample.
+
+Theorem C10_model_rejects_what_the_reference_rejects : forall cap lam vals D,
+  link_side_codes vals D -> abft_run cap lam vals D = reference vals D.
+Proof. exact link_codes. Qed.
+
+Example C10_rejection_example :
+  link_side_codes ex_vals cx_D /\
+  map fst (fst (reference ex_vals cx_D)) =
+    [0; 0; 0; 0; 0; 0; 0; 0; 0; 0; 1; 1; 2; 2; 0; 0; 0; 0; 0; 0; 0; 0; 0; 0; 0; 0; 0; 0; 0; 0; 0; 0; 0; 0; 0; 0; 0; 0; 0; 0; 0; 0; 0; 0; 0; 0; 0; 0; 0; 0; 0; 0] /\
+  abft_run 3 (fun _ => 0) ex_vals cx_D = reference ex_vals cx_D.
+Proof. exact (conj cx_side (conj cx_codes cx_refines_by_evaluation)). Qed.
+
+Theorem C10_model_refines_reference_extended : forall cap lam pol vals Ss K,
+  vals <> [] -> epochs_ok_x pol K vals 1 Ss -> N.of_nat (total_builds Ss) <= K -> K < 2 ^ 192 ->
+  model_epochs_x cap lam pol (start 1 vals) vals 1 Ss =
+  map (fun r => (fst (fst r), snd (fst r), option_map mk_vals (snd r))) (ref_epochs_x pol vals 1 Ss).
+Proof. exact link_x. Qed.
+
+Theorem C10_extended_hypothesis_is_decidable : forall pol K, policy_b pol = true ->
+  forall Ss vals ep, epochs_ok_xb pol K vals ep Ss = true -> epochs_ok_x pol K vals ep Ss.
+Proof. exact epochs_ok_xb_ok. Qed.
+
+Theorem C10_extended_reference_is_the_reference : forall ep vals D T,
+  (forall r, In r (snd (add_events vals T D)) -> fst r < 3) ->
+  map pj_ev (fst (fst (ref_x ep vals (fun _ => None) T (map slot0 D) []))) = snd (add_events vals T D) /\
+  map pj_blk (snd (fst (ref_x ep vals (fun _ => None) T (map slot0 D) []))) =
+    map (fun b => (fst b, snd b, ElectionSpec.cheaters_of vals (fst (add_events vals T D)) (snd b))) (r_blocks vals (fst (add_events vals T D))) /\
+  snd (ref_x ep vals (fun _ => None) T (map slot0 D) []) = None.
+Proof. exact ref_x_none. Qed.
+
+(* three epochs, seal at frame 2 (a non-sealing block first, a cheater in the sealing block) to re-weighted and
+   re-ordered validators, a Process-only epoch sealing at frame 1, an unsealed last epoch; rejected events,
+   a duplicate, an orphan, noise and restarts everywhere *)
+Example C10_extended_example :
+  policy_b xx_pol = true /\ vals_b ex_vals = true /\ epochs_ok_xb xx_pol 400 ex_vals 1 xx_Ss = true /\ total_builds xx_Ss = 87%nat /\
+  map (fun r => (snd (fst r), snd r,
+                 [count_code 0 (fst (fst r)); count_code 1 (fst (fst r)); count_code 2 (fst (fst r)); count_code 7 (fst (fst r)); count_code 8 (fst (fst r))]))
+      (ref_epochs_x xx_pol ex_vals 1 xx_Ss) =
+  [ ([(1, 1000, [], None); (2, 1015, [37094], Some (mk_vals xx_vals2))], Some xx_vals2, [37; 2; 2; 11; 7]%nat);
+    ([(1, 3002, [], Some (mk_vals ex_vals))], Some ex_vals, [23; 0; 0; 25; 2]%nat);
+    ([(1, 5000, [], None); (2, 5015, [37094], None)], None, [48; 0; 0; 0; 2]%nat) ] /\
+  model_epochs_x 3 xx_lam xx_pol (start 1 ex_vals) ex_vals 1 xx_Ss =
+  map (fun r => (fst (fst r), snd (fst r), option_map mk_vals (snd r))) (ref_epochs_x xx_pol ex_vals 1 xx_Ss).
+Proof. exact (conj xx_pol_ok (conj xx_vals_ok (conj xx_input_ok (conj xx_builds (conj xx_reference xx_refines_by_evaluation))))). Qed.
+
+Print Assumptions C10_model_rejects_what_the_reference_rejects.
+Print Assumptions C10_model_refines_reference_extended.
+Print Assumptions C10_extended_hypothesis_is_decidable.
+Print Assumptions C10_extended_reference_is_the_reference.
+Example C10_extended_reference_example :
+  (forall r, In r (snd (add_events ex_vals [] cx_D)) -> fst r < 3) /\
+  map pj_ev (fst (fst (ref_x 1 ex_vals (fun _ => None) [] (map slot0 cx_D) []))) = fst (reference ex_vals cx_D) /\
+  map pj_blk (snd (fst (ref_x 1 ex_vals (fun _ => None) [] (map slot0 cx_D) []))) = snd (reference ex_vals cx_D).
+Proof. split; [exact (proj1 (proj2 (proj1 (proj2 (proj2 cx_side))))) | exact cx_walk]. Qed.
